@@ -86,6 +86,10 @@ func (H) Generate(prop, tier string, seed uint64) *simkit.Plan {
 		// trusted replica as the author of its messages
 		p.SetKnob("forge", 1)
 	}
+	if trust == 2 && r.Chance(0.6) {
+		// lock acquisitions and atomic.Value accesses are scheduling points
+		p.SetKnob("lock_yield", int64([]int{30, 100, 300}[r.Intn(3)]))
+	}
 	contended := r.Chance(0.35)
 	if contended {
 		p.SetKnob("contended", 1)
@@ -141,6 +145,20 @@ func (H) Generate(prop, tier string, seed uint64) *simkit.Plan {
 			}
 			if trust != 2 && (st.Op == "trust" || st.Op == "distrust") {
 				st.Op = "observe"
+			}
+			if trust == 2 && r.Chance(0.25) {
+				// what the open Cluster.PeerAdd endpoint makes the consensus component do
+				// for whoever asks (CRDT: nothing): trust must not change by it
+				st.Op = "addpeer"
+				st.Peer, st.B = r.Intn(n), r.Intn(n)
+			} else if trust == 2 && n >= 3 && r.Chance(0.2) {
+				// a Trust and a Distrust of two other peers issued at one replica in the
+				// same instant: both must take effect
+				st.Op = "trust_race"
+				st.Peer = r.Intn(n)
+				st.B = r.Intn(n)
+				st.N = r.Intn(n)
+				st.Ms = r.Intn(4) // repetitions - 1
 			}
 		} else {
 			switch r.Pick(45, 25, 15, 15) {
@@ -478,6 +496,43 @@ func (H) Execute(t *testing.T, plan *simkit.Plan, run *simkit.Run) {
 				run.Fault("trust_change")
 				run.Ev(fmt.Sprintf("r%d", pi), "distrust", "r%d", s.B%n)
 			}
+		case "addpeer":
+			b := s.B % n
+			if pi != b {
+				before := w.reps[pi].cons.IsTrustedPeer(ctx, simkit.TestPeer(b))
+				w.reps[pi].cons.AddPeer(ctx, simkit.TestPeer(b))
+				after := w.reps[pi].cons.IsTrustedPeer(ctx, simkit.TestPeer(b))
+				run.Ev(fmt.Sprintf("r%d", pi), "addpeer", "r%d trusted before=%v after=%v", b, before, after)
+				run.Probe("add_peer_calls")
+				if after && !before {
+					run.Violate(plan.Property+"/trust_gained_by_add_peer", "", "r%d did not trust r%d; after AddPeer(r%d) - what the open PeerAdd endpoint does for any caller - it does", pi, b, b)
+				}
+			}
+		case "trust_race":
+			a, b := s.B%n, s.N%n
+			if a != b && a != pi && b != pi {
+				for rep := 0; rep <= s.Ms%4; rep++ {
+					// so that both calls change something: a is not trusted, b is
+					w.reps[pi].cons.Distrust(ctx, simkit.TestPeer(a))
+					w.reps[pi].cons.Trust(ctx, simkit.TestPeer(b))
+					var wg sync.WaitGroup
+					wg.Add(2)
+					go func() { defer wg.Done(); w.reps[pi].cons.Trust(ctx, simkit.TestPeer(a)) }()
+					go func() { defer wg.Done(); w.reps[pi].cons.Distrust(ctx, simkit.TestPeer(b)) }()
+					wg.Wait()
+					w.reps[pi].trusts[a] = true
+					delete(w.reps[pi].trusts, b)
+					run.Fault("trust_change")
+					run.Probe("concurrent_trust_changes")
+					ta := w.reps[pi].cons.IsTrustedPeer(ctx, simkit.TestPeer(a))
+					tb := w.reps[pi].cons.IsTrustedPeer(ctx, simkit.TestPeer(b))
+					run.Ev(fmt.Sprintf("r%d", pi), "trust_race", "trust r%d, distrust r%d -> %v %v", a, b, ta, tb)
+					if !ta || tb {
+						run.Violate(plan.Property+"/trust_call_lost", "", "r%d was told Trust(r%d) and Distrust(r%d) in the same instant (before: r%d not trusted, r%d trusted); both returned, yet it reports trusted(r%d)=%v trusted(r%d)=%v", pi, a, b, a, b, a, ta, b, tb)
+						break
+					}
+				}
+			}
 		case "observe":
 			synctest.Wait()
 			w.observeLocal("mid")
@@ -704,7 +759,50 @@ func (w *world) observeLocal(tag string) {
 	w.run.Probe("observations")
 }
 
+// debugDump (VERIF_DEBUG_C02=1): the raw go-ds-crdt keys of every replica -
+// heads, elements, tombstones - to tell "an update never arrived" from "the
+// same updates merged differently".
+func (w *world) debugDump() {
+	if os.Getenv("VERIF_DEBUG_C02") == "" {
+		return
+	}
+	for i, r := range w.reps {
+		res, err := r.store.inner.Query(dsq.Query{KeysOnly: true})
+		if err != nil {
+			continue
+		}
+		var ks []string
+		for e := range res.Next() {
+			k := e.Key
+			if strings.Contains(k, "/h/") || strings.Contains(k, "/s/s/") || strings.Contains(k, "/s/t/") || strings.Contains(k, "/s/k/") {
+				ks = append(ks, k)
+			}
+		}
+		sort.Strings(ks)
+		for _, k := range ks {
+			fmt.Fprintf(os.Stderr, "DUMP r%d %s\n", i, k)
+		}
+	}
+}
+
+// headsOf lists the heads of replica i's update DAG (go-ds-crdt's /h/ keys).
+func (w *world) headsOf(i int) string {
+	res, err := w.reps[i].store.inner.Query(dsq.Query{KeysOnly: true})
+	if err != nil {
+		return ""
+	}
+	var ks []string
+	for e := range res.Next() {
+		if x := strings.Index(e.Key, "/h/"); x >= 0 {
+			ks = append(ks, e.Key[x:])
+		}
+	}
+	sort.Strings(ks)
+	return strings.Join(ks, " ")
+}
+
 func (w *world) judge() {
+	w.debugDump()
 	n := len(w.reps)
 	contended := w.plan.Knob("contended", 0) == 1
 	w.observeLocal("final")
@@ -833,7 +931,13 @@ func (w *world) judge() {
 				if sameKeys {
 					w.run.Violate("C02/converged_cids_different_values", "concurrent writers, same cids", "r%d and r%d hold the same CIDs but different pins for them after concurrent pin/unpin of one CID at both: r%d=%s and r%d=%s", i, j, i, fmtState(si), j, fmtState(sj))
 				} else {
-					w.run.Violate("C02/not_converged", "", "r%d and r%d trust each other and have been connected and quiet for the whole budget, yet r%d=%s and r%d=%s", i, j, i, fmtState(si), j, fmtState(sj))
+					// did an update never arrive, or did the same updates merge differently?
+					sig, note := "", ""
+					if hi, hj := w.headsOf(i), w.headsOf(j); hi != "" && hi == hj {
+						sig = "identical heads"
+						note = " (both hold the same heads of the update DAG: every update arrived, the merge differs)"
+					}
+					w.run.Violate("C02/not_converged", sig, "r%d and r%d trust each other and have been connected and quiet for the whole budget, yet r%d=%s and r%d=%s%s", i, j, i, fmtState(si), j, fmtState(sj), note)
 				}
 			}
 		}
@@ -909,7 +1013,10 @@ func (w *world) neverTrusted(i, j int) bool {
 		var s Step
 		json.Unmarshal(raw, &s)
 		n := len(w.reps)
-		if s.Op == "trust" && ((s.Peer%n)+n)%n == i && s.B%n == j {
+		if (s.Op == "trust" || s.Op == "trust_race") && ((s.Peer%n)+n)%n == i && s.B%n == j {
+			return false
+		}
+		if s.Op == "trust_race" && ((s.Peer%n)+n)%n == i && s.N%n == j {
 			return false
 		}
 	}
